@@ -34,6 +34,13 @@ def check(tr, programs):
                      "invariants": ["Usable", "MetaNeverTorn"], "action_counts": {k: v for k, v in r.coverage.items() if k[0].isupper()}})
         tot["distinct"] += r.distinct
         tot["generated"] += r.generated
+        # any number of crashes: the counter is hidden by a VIEW and its bound (1000) is far above the diameter
+        ru = run_tlc(mod, cfg(True, 1000, "VIEW NoCrashCount\nINVARIANT Usable\nINVARIANT MetaNeverTorn\n" +
+                              ("INVARIANT ReportedDurable\n" if mod == "MC_Persist" else "")), name="persistunb")
+        if (ru.depth or 0) >= 1000:
+            raise MachineryError("%s: the crash bound was reached in the unbounded-crashes run" % mod)
+        runs.append({"module": mod, "fixed": True, "max_crashes": "any (VIEW without the counter)", "distinct": ru.distinct, "depth": ru.depth,
+                     "invariants": ["Usable", "MetaNeverTorn"] + (["ReportedDurable"] if mod == "MC_Persist" else [])})
         r = run_tlc(mod, cfg(True, maxc, "PROPERTY Reaches\n", spec="FairSpec"), name="persistlive")
         runs.append({"module": mod, "fixed": True, "property": "Reaches (FairSpec)", "distinct": r.distinct})
         r = run_tlc(mod, cfg(False, 1, "INVARIANT Usable\n"), allow_violation=True, name="persistold")
